@@ -3,118 +3,10 @@
 //! and the per-tick inputs as op lines, the per-tick sink outputs of the *real* compiled
 //! dataflow as answers, and evaluates the documented clauses directly (property oracle).
 #![allow(clippy::type_complexity)]
-use dfir_rs::itertools::EitherOrBoth;
-use dfir_rs::lattices::Max;
-#[allow(unused_imports)]
-use dfir_rs::dfir_pipes::pull::{Fold, FoldFrom, Reduce};
 use hv_common::{Args, Recorder, Rng};
-use std::cell::RefCell;
 use std::collections::BTreeMap;
-use std::rc::Rc;
 
-pub const M: u64 = 1000003;
-
-/// structural hash + canonical text of an item (the Lean model computes the same)
-pub trait HV {
-    fn hv(&self) -> u64;
-    fn show(&self) -> String;
-}
-impl HV for u64 {
-    fn hv(&self) -> u64 {
-        *self % M
-    }
-    fn show(&self) -> String {
-        self.to_string()
-    }
-}
-impl HV for usize {
-    fn hv(&self) -> u64 {
-        (*self as u64) % M
-    }
-    fn show(&self) -> String {
-        self.to_string()
-    }
-}
-impl HV for () {
-    fn hv(&self) -> u64 {
-        1
-    }
-    fn show(&self) -> String {
-        "()".into()
-    }
-}
-impl<A: HV, B: HV> HV for (A, B) {
-    fn hv(&self) -> u64 {
-        (self.0.hv() * 31 + self.1.hv() + 7) % M
-    }
-    fn show(&self) -> String {
-        format!("({},{})", self.0.show(), self.1.show())
-    }
-}
-/// `Vec` / `Option` items are cons chains `(a,(b,()))`
-impl<A: HV> HV for Vec<A> {
-    fn hv(&self) -> u64 {
-        self.iter().rev().fold(1u64, |t, a| (a.hv() * 31 + t + 7) % M)
-    }
-    fn show(&self) -> String {
-        self.iter().rev().fold("()".to_string(), |t, a| format!("({},{})", a.show(), t))
-    }
-}
-impl<A: HV> HV for Option<A> {
-    fn hv(&self) -> u64 {
-        match self {
-            None => 1,
-            Some(a) => (a.hv() * 31 + 1 + 7) % M,
-        }
-    }
-    fn show(&self) -> String {
-        match self {
-            None => "()".into(),
-            Some(a) => format!("({},())", a.show()),
-        }
-    }
-}
-impl<A: HV, B: HV> HV for EitherOrBoth<A, B> {
-    fn hv(&self) -> u64 {
-        match self {
-            EitherOrBoth::Left(a) => (0 * 31 + a.hv() + 7) % M,
-            EitherOrBoth::Right(b) => (1 * 31 + b.hv() + 7) % M,
-            EitherOrBoth::Both(a, b) => (2 * 31 + ((a.hv() * 31 + b.hv() + 7) % M) + 7) % M,
-        }
-    }
-    fn show(&self) -> String {
-        match self {
-            EitherOrBoth::Left(a) => format!("(0,{})", a.show()),
-            EitherOrBoth::Right(b) => format!("(1,{})", b.show()),
-            EitherOrBoth::Both(a, b) => format!("(2,({},{}))", a.show(), b.show()),
-        }
-    }
-}
-pub fn hv<T: HV>(t: &T) -> u64 {
-    t.hv()
-}
-
-pub type Out = Rc<RefCell<Vec<String>>>;
-
-pub struct ProgInfo {
-    pub name: &'static str,
-    pub kind: &'static str,
-    pub nsrc: usize,
-    pub nsink: usize,
-    pub desc: &'static str,
-    pub perturb: &'static str,
-    pub vdesc: &'static str,
-    pub oracle: &'static str,
-    pub ops: &'static str,
-    pub run: fn(&[Vec<Vec<u64>>], usize) -> Vec<Vec<Vec<String>>>,
-    pub vrun: Option<fn(&[Vec<Vec<u64>>], usize) -> Vec<Vec<Vec<String>>>>,
-}
-
-mod corpus {
-    use super::*;
-    include!(concat!(env!("OUT_DIR"), "/corpus.rs"));
-}
-use corpus::PROGS;
+use hv_dfir_corpus::{ProgInfo, PROGS};
 
 // ---------------------------------------------------------------------------------------------
 
@@ -212,7 +104,7 @@ fn blocking_oracle(p: &ProgInfo, inputs: &[Vec<Vec<u64>>], outs: &[Vec<Vec<Strin
         cum1.extend(i1.iter().copied());
         let got = bag(&outs[t][last]);
         let detail = |exp: &Vec<String>| format!("prog={} tick={} expected={} got={}", p.name, t, show_stream(exp, true), show_stream(&got, true));
-        let mut expect = |exp: Vec<String>, rec: &mut Recorder| {
+        let expect = |exp: Vec<String>, rec: &mut Recorder| {
             let e = bag(&exp);
             rec.check(e == got, &sig, &detail(&e));
         };
@@ -411,10 +303,9 @@ fn replay(path: &std::path::PathBuf, mode: &str, rec: &mut Recorder) {
         let name = head.split(' ').find_map(|w| w.strip_prefix("prog=")).unwrap_or("");
         match find_prog(name) {
             None => {
+                // not a program of the compiled corpus (the generator changed): nothing to run
                 rec.case(no, &format!("prog={name} unknown"));
-                for l in body {
-                    rec.line(l, "bad-op");
-                }
+                rec.count("stale-corpus-case");
             }
             Some(p) => {
                 let given: Vec<&String> = body.iter().filter(|l| l.starts_with("node ") || l.starts_with("sink ")).collect();
@@ -432,9 +323,7 @@ fn replay(path: &std::path::PathBuf, mode: &str, rec: &mut Recorder) {
                 if !same || !ok {
                     // shrunk / stale case: not a program of the compiled corpus
                     rec.case(no, &format!("prog={name} stale"));
-                    for l in body {
-                        rec.line(l, "bad-op");
-                    }
+                    rec.count("stale-corpus-case");
                 } else {
                     let ticks = per_tick.len();
                     let inputs: Vec<Vec<Vec<u64>>> = (0..p.nsrc).map(|s| (0..ticks).map(|t| per_tick[t][s].clone()).collect()).collect();
@@ -443,6 +332,65 @@ fn replay(path: &std::path::PathBuf, mode: &str, rec: &mut Recorder) {
             }
         }
         i = j;
+    }
+}
+
+/// parse -> flat graph -> eliminate -> partition -> code generation of a DFIR text with the real
+/// `dfir_lang` pipeline (no rustc): does the program compile as far as DFIR is concerned?
+fn dfir_compiles(src: &str) -> Result<usize, String> {
+    let code = syn::parse_str::<dfir_lang::parse::DfirCode>(src).map_err(|e| format!("parse: {e}"))?;
+    match hv_common::catch(std::panic::AssertUnwindSafe(|| dfir_lang::graph::build_dfir_code(code, &quote::quote!(dfir_rs)))) {
+        Ok(Ok(out)) => Ok(out.partitioned_graph.subgraph_toposort().len()),
+        Ok(Err(d)) => Err(format!("diagnostics: {}", d.iter().map(|x| x.to_string()).collect::<Vec<_>>().join(" / ").chars().take(200).collect::<String>())),
+        Err(e) => Err(format!("panic: {e}")),
+    }
+}
+
+/// same-tick cycles: the original and every shape-perturbed variant must be rejected alike
+const CYCLIC_PAIRS: &[(&str, &str)] = &[
+    (
+        "a = union() -> map(|x: u64| x + 1) -> tee(); source_iter([1u64]) -> [0]a; a -> [1]a; a -> for_each(|x: u64| drop(x));",
+        "a = union() -> map(|x: u64| x + 1) -> identity::<u64>() -> tee(); source_iter([1u64]) -> [0]a; a -> [1]a; a -> for_each(|x: u64| drop(x));",
+    ),
+    (
+        "a = union() -> map(|x: u64| x + 1) -> tee(); source_iter([1u64]) -> [0]a; a -> [1]a; a -> for_each(|x: u64| drop(x));",
+        "a = union() -> map(|x: u64| x + 1) -> tee(); source_iter([1u64]) -> [0]a; a -> t2; t2 = tee(); t2 -> [1]a; t2 -> for_each(|x: u64| drop(x)); a -> for_each(|x: u64| drop(x));",
+    ),
+    (
+        "j = join::<'static>() -> map(|x: (u64, (u64, u64))| (x.0, x.1.0)) -> tee(); source_iter([(1u64, 1u64)]) -> [0]j; j -> [1]j; j -> for_each(|x: (u64, u64)| drop(x));",
+        "j = join::<'static>() -> map(|x: (u64, (u64, u64))| (x.0, x.1.0)) -> tee(); source_iter([(1u64, 1u64)]) -> [0]j; u = union(); j -> [0]u; source_iter(Vec::<(u64, u64)>::new()) -> [1]u; u -> [1]j; j -> for_each(|x: (u64, u64)| drop(x));",
+    ),
+    (
+        // broken by defer_tick: both accepted
+        "a = union() -> map(|x: u64| x + 1) -> tee(); source_iter([1u64]) -> [0]a; a -> defer_tick() -> [1]a; a -> for_each(|x: u64| drop(x));",
+        "a = union() -> map(|x: u64| x + 1) -> identity::<u64>() -> tee(); source_iter([1u64]) -> [0]a; a -> defer_tick() -> map(|x: u64| x) -> [1]a; a -> for_each(|x: u64| drop(x));",
+    ),
+];
+
+/// C22: compile-or-not must agree between a program and its shape-perturbed variant
+fn compile_agreement(progs: &[&ProgInfo], rec: &mut Recorder) {
+    for p in progs {
+        if p.vsrc.is_empty() {
+            continue;
+        }
+        let a = dfir_compiles(p.src);
+        let b = dfir_compiles(p.vsrc);
+        rec.count(if a.is_ok() { "compile:ok" } else { "compile:err" });
+        rec.check(a.is_ok() == b.is_ok(), "compile-disagreement", &format!("prog={} original={:?} variant={:?}", p.name, a, b));
+        // the corpus is compiled by rustc, so the DFIR stage must have accepted it
+        rec.check(a.is_ok(), "corpus-program-rejected-by-dfir_lang", &format!("prog={} {:?}", p.name, a));
+        if let (Ok(x), Ok(y)) = (&a, &b) {
+            if x != y {
+                rec.count("variant-has-different-subgraph-count");
+            }
+        }
+    }
+    for (i, (o, v)) in CYCLIC_PAIRS.iter().enumerate() {
+        let a = dfir_compiles(o);
+        let b = dfir_compiles(v);
+        rec.count(if a.is_ok() { "compile:ok" } else { "compile:err" });
+        rec.check(a.is_ok() == b.is_ok(), "compile-disagreement", &format!("cyclic-pair={i} original={:?} variant={:?}", a, b));
+        rec.check(a.is_ok() == (i == 3), "cyclic-pair-unexpected-verdict", &format!("cyclic-pair={i} original={:?}", a));
     }
 }
 
@@ -466,7 +414,7 @@ fn main() {
         .iter()
         .filter(|p| match mode.as_str() {
             "c21" => p.kind != "finding",
-            "c22" => p.vrun.is_some(),
+            "c22" => p.vrun.is_some() && (p.kind != "finding" || args.extra.contains_key("findings")),
             _ => p.kind == "blocking",
         })
         .collect();
@@ -477,6 +425,9 @@ fn main() {
         let ticks = rng.range(2, if args.tier == "thorough" { 6 } else { 4 }) as usize;
         let inputs = gen_inputs(&mut rng, p.nsrc, ticks, &args.tier);
         run_case(i + 1, p, &inputs, &mode, &mut rec);
+    }
+    if mode == "c22" {
+        compile_agreement(&progs, &mut rec);
     }
     rec.count_n("corpus-programs", progs.len() as u64);
     rec.finish(&args.out);
